@@ -723,11 +723,11 @@ func main() {
 		misuse, defects   int
 		quick, thorough   int
 	}{
-		{"protocol:safe-heights", true, false, 0, 0, 140, 6000},
-		{"protocol:any-heights", false, false, 0, 0, 80, 3000},
-		{"gaps", true, true, 0, 0, 50, 2000},
-		{"defect-classes", true, false, 0, 12, 40, 1500},
-		{"misuse", true, false, 10, 0, 40, 1500},
+		{"protocol:safe-heights", true, false, 0, 0, 140, 1800},
+		{"protocol:any-heights", false, false, 0, 0, 80, 900},
+		{"gaps", true, true, 0, 0, 50, 500},
+		{"defect-classes", true, false, 0, 12, 40, 400},
+		{"misuse", true, false, 10, 0, 40, 400},
 	}
 	for _, s := range streams {
 		for i := 0; i < run.N(s.quick, s.thorough); i++ {
